@@ -31,7 +31,8 @@ type c18Input struct {
 	Srcs     []string `json:"srcs"`
 	Universe bool     `json:"universe"`
 	Remove   int      `json:"remove,omitempty"` // graph-removed: index of the declaration taken out of the file
-	Importer string   `json:"importer"` // nil | ok | fail | failsome
+	Importer string   `json:"importer"`         // nil | ok | fail | failsome | failpaths
+	Fail     []string `json:"fail,omitempty"`   // failpaths: the import paths the importer cannot load
 }
 
 // ---------------------------------------------------------------------------------------------
@@ -403,10 +404,21 @@ func c18NewPackage(in c18Input) (key, what string) {
 	var aimp ast.Importer
 	var dimp dst.Importer
 	fails := func(path string) bool {
+		if in.Importer == "failpaths" {
+			for _, p := range in.Fail {
+				if p == path {
+					return true
+				}
+			}
+			return false
+		}
 		return in.Importer == "fail" || (in.Importer == "failsome" && len(path)%2 == 0)
 	}
+	// the paths each side asks its importer for, in the order of the calls
+	var acalls, dcalls []string
 	if in.Importer != "nil" {
 		aimp = func(imports map[string]*ast.Object, path string) (*ast.Object, error) {
+			acalls = append(acalls, path)
 			if fails(path) {
 				return nil, fmt.Errorf("cannot import %s", path)
 			}
@@ -422,6 +434,7 @@ func c18NewPackage(in c18Input) (key, what string) {
 			return o, nil
 		}
 		dimp = func(imports map[string]*dst.Object, path string) (*dst.Object, error) {
+			dcalls = append(dcalls, path)
 			if fails(path) {
 				return nil, fmt.Errorf("cannot import %s", path)
 			}
@@ -506,7 +519,96 @@ func c18NewPackage(in c18Input) (key, what string) {
 			return "c18-newpackage-unresolved", fmt.Sprintf("%s: unresolved after NewPackage: go/ast %v, dst %v", name, an, dn)
 		}
 	}
+	// the identifiers handed over as unresolved: resolved to an object of the same kind and name, or
+	// left alone, alike (go/ast resolves a file with import errors without the universe)
+	for name, af := range afs {
+		for _, id := range c18Idents(af) {
+			d, ok := dec.Dst.Nodes[id].(*dst.Ident)
+			if !ok {
+				continue
+			}
+			ao, do := "-", "-"
+			if id.Obj != nil {
+				ao = id.Obj.Kind.String() + " " + id.Obj.Name
+			}
+			if d.Obj != nil {
+				do = d.Obj.Kind.String() + " " + d.Obj.Name
+			}
+			if ao != do {
+				return "c18-newpackage-resolved", fmt.Sprintf("%s: identifier %s after NewPackage: go/ast resolved it to [%s], dst to [%s]", name, id.Name, ao, do)
+			}
+		}
+	}
+	// Package.Imports: the same paths, each holding a package object of the same name with the same members
+	impNames := func(paths []string, describe func(string) string) string {
+		sort.Strings(paths)
+		var out []string
+		for _, p := range paths {
+			out = append(out, p+"="+describe(p))
+		}
+		return strings.Join(out, " ")
+	}
+	var apaths, dpaths []string
+	for p := range ap.Imports {
+		apaths = append(apaths, p)
+	}
+	for p := range dp.Imports {
+		dpaths = append(dpaths, p)
+	}
+	ai := impNames(apaths, func(p string) string {
+		o := ap.Imports[p]
+		if o == nil {
+			return "nil"
+		}
+		var members []string
+		if sc, ok := o.Data.(*ast.Scope); ok && sc != nil {
+			for n, m := range sc.Objects {
+				members = append(members, m.Kind.String()+" "+n)
+			}
+		}
+		sort.Strings(members)
+		return fmt.Sprintf("%s %s%v", o.Kind, o.Name, members)
+	})
+	di := impNames(dpaths, func(p string) string {
+		o := dp.Imports[p]
+		if o == nil {
+			return "nil"
+		}
+		var members []string
+		if sc, ok := o.Data.(*dst.Scope); ok && sc != nil {
+			for n, m := range sc.Objects {
+				members = append(members, m.Kind.String()+" "+n)
+			}
+		}
+		sort.Strings(members)
+		return fmt.Sprintf("%s %s%v", o.Kind, o.Name, members)
+	})
+	if ai != di {
+		return "c18-newpackage-imports", fmt.Sprintf("Package.Imports differ: go/ast {%s}, dst {%s}", ai, di)
+	}
+	// the importer is consulted for the same paths: within a file in the order of File.Imports (one
+	// file: the very same sequence); the files themselves are visited in map order on both sides
+	if len(afs) > 1 {
+		acalls, dcalls = append([]string{}, acalls...), append([]string{}, dcalls...)
+		sort.Strings(acalls)
+		sort.Strings(dcalls)
+	}
+	if strings.Join(acalls, " ") != strings.Join(dcalls, " ") {
+		return "c18-newpackage-importer-calls", fmt.Sprintf("importer calls differ: go/ast asked for %v, dst for %v", acalls, dcalls)
+	}
 	return "", ""
+}
+
+// c18Idents: the identifiers of a file in source order
+func c18Idents(af *ast.File) []*ast.Ident {
+	var out []*ast.Ident
+	ast.Inspect(af, func(n ast.Node) bool {
+		if id, ok := n.(*ast.Ident); ok {
+			out = append(out, id)
+		}
+		return true
+	})
+	return out
 }
 
 var c18DotTwice = "package p\n\nimport . \"lib\"\n\nimport . \"lib\"\n\nvar usesDot = 1\n"
@@ -518,6 +620,34 @@ var c18PkgFiles = []string{
 	"package p\n\nimport . \"math\"\n\nconst K = Pi\n\nfunc F() {}\n\nvar Z = append([]int{}, K2)\n",
 	"package q\n\nvar Other int\n",
 	"package p\n\nfunc H(m map[string]int) {\n\tfor k, v := range m {\n\t\t_, _ = k, v\n\t}\nL:\n\tfor {\n\t\tbreak L\n\t}\n}\n",
+	// blank imports: go/ast hands them to the importer like any other import (no importer or a failing one:
+	// the file is resolved without the universe; a working one: the package is recorded in Package.Imports)
+	// -- the only import of its file
+	"package p\n\nimport _ \"embed\"\n\nvar E int\n\nfunc fe(s string) bool { return len(s) > E && undefined2 }\n",
+	// -- next to an ordinary import, the blank path of even length (the one 'failsome' cannot load)
+	"package p\n\nimport (\n\t\"fmt\"\n\t_ \"net/http/pprof\"\n)\n\nvar P error = fmt.Member(nil)\n",
+	// -- first in the list, before a renamed import; both loadable under 'failsome'
+	"package p\n\nimport (\n\t_ \"image/png\"\n\tsc \"strconv\"\n)\n\nfunc Q(b bool) string { return sc.Member(b, true) }\n",
+	// -- one path imported blank and by name in two declarations
+	"package p\n\nimport _ \"unsafe\"\n\nimport \"unsafe\"\n\ntype U int\n\nvar up = unsafe.Member(U(0))\n",
+}
+
+// c18ImportPaths: the import paths of a source, in the order of File.Imports, without repetitions
+func c18ImportPaths(src string) []string {
+	af, err := parser.ParseFile(token.NewFileSet(), "x.go", src, parser.ImportsOnly)
+	if err != nil {
+		return nil
+	}
+	var out []string
+	seen := map[string]bool{}
+	for _, spec := range af.Imports {
+		p := strings.Trim(spec.Path.Value, "\"`")
+		if !seen[p] {
+			seen[p] = true
+			out = append(out, p)
+		}
+	}
+	return out
 }
 
 // crossfile: the files of one package are decorated with one Decorator, resolved across files with
@@ -748,7 +878,7 @@ func c18Check(in c18Input) (key, what string) {
 }
 
 func c18Prop(c *Ctx) {
-	c.Res.Rule = "graph: hand corpus, range/label/closure snippets (objects whose Decl lies outside the tree), $GOROOT/src sample, decorated and restored with Extras; newpackage: 1-4 files drawn from a pool with redeclarations, undeclared names, dot/aliased imports and a wrong package name x universe {nil, custom} x importer {nil, ok, failing, failing for some}; non-trivial = distinct input"
+	c.Res.Rule = "graph: hand corpus, range/label/closure snippets (objects whose Decl lies outside the tree), $GOROOT/src sample, decorated and restored with Extras; newpackage: 1-4 files drawn from a pool with redeclarations, undeclared names, dot/aliased imports and a wrong package name x universe {nil, custom} x importer {nil, ok, failing, failing for some}, and every pool file with imports (blank imports among them: alone in the file, next to ordinary and renamed imports, blank and named for one path), alone and with a second file x universe x importer {nil, ok, failing, failing for exactly one of the file's paths, each in turn}; compared: reports, package scope, Unresolved, the object of every identifier, Package.Imports, importer calls; non-trivial = distinct input"
 	srcs := append([]string{c18PkgFiles[4], c18PkgFiles[0], c18PkgFiles[1]}, oracleSources(c, c.N(20), 8000)...)
 	for _, s := range srcs {
 		in := c18Input{Mode: "graph", Srcs: []string{s}}
@@ -829,6 +959,38 @@ func c18Prop(c *Ctx) {
 		}
 		if len(c.Res.Samples) < 2 {
 			c.Res.Samples = append(c.Res.Samples, map[string]interface{}{"mode": in.Mode, "files": len(in.Srcs), "universe": in.Universe, "importer": in.Importer})
+		}
+	}
+	// every pool file with imports, alone and next to a second file of the pool, under each universe and
+	// each importer, among them the importers that cannot load exactly one of the file's paths
+	for fi, src := range c18PkgFiles {
+		paths := c18ImportPaths(src)
+		if fi == 3 || len(paths) == 0 {
+			continue
+		}
+		other := c.Rng.Intn(len(c18PkgFiles))
+		for other == 3 || other == fi {
+			other = (other + 1) % len(c18PkgFiles)
+		}
+		for _, srcs := range [][]string{{src}, {src, c18PkgFiles[other]}} {
+			for _, universe := range []bool{true, false} {
+				var ins []c18Input
+				for _, imp := range imps {
+					ins = append(ins, c18Input{Mode: "newpackage", Srcs: srcs, Universe: universe, Importer: imp})
+				}
+				for _, p := range paths {
+					ins = append(ins, c18Input{Mode: "newpackage", Srcs: srcs, Universe: universe, Importer: "failpaths", Fail: []string{p}})
+				}
+				for _, in := range ins {
+					c.Res.Evaluations++
+					b, _ := json.Marshal(in)
+					c.Res.seen(string(b))
+					c.Res.hist("c18", fmt.Sprintf("newpackage per-file universe=%v importer=%s", in.Universe, in.Importer))
+					if key, what := c18Check(in); key != "" {
+						c.Res.fail(key, what, in)
+					}
+				}
+			}
 		}
 	}
 }
